@@ -45,7 +45,7 @@ HELPERS = [
     ("kirchhoff_from_cauchy", "t", "sM", "", "s", "computeKirchhoffStressDerivativeFromCauchyStressDerivative(ds, s(F), F) is the Jacobian of F |-> det(F) s(F), s(F) = s0 + X.F", "i", "t4"),
     ("cauchy_from_kirchhoff", "t", "sM", "p", "s", "computeCauchyStressDerivativeFromKirchhoffStressDerivative(dtau, tau(F)/det F, F) is the Jacobian of F |-> tau(F)/det(F), tau(F) = t0 + X.F (det F <> 0)", "i", "t5"),
     ("pk1_from_cauchy", "t", "sM", "", "t", "convertCauchyStressDerivativeToFirstPiolaKirchoffStressDerivative(ds, F, s(F)) is the Jacobian of F |-> convertCauchyStressToFirstPiolaKirchhoffStress(s(F), F), s(F) = s0 + X.F", "j", "t1"),
-    ("pk1_from_pk2", "t", "sS", "p", "t", "convertSecondPiolaKirchhoffStressDerivativeToFirstPiolaKirchoffStressDerivative(dS/dE, F, sigma(F)) is the Jacobian of F |-> P(F) = F.S(F), S(F) = S0 + X.E_GL(F), through the conversions of /repo (det F <> 0)", "j", "t6"),
+    ("pk1_from_pk2", "t", "sSA", "p", "t", "convertSecondPiolaKirchhoffStressDerivativeToFirstPiolaKirchoffStressDerivative(dS/dE, F0, s0) is the Jacobian at F0 of F |-> F.S(F), S(F) = S(s0, F0) + X.(E_GL(F) - E_GL(F0)), S(s0, F0) = convertCauchyStressToSecondPiolaKirchhoffStress(s0, F0) (det F0 <> 0)", "j", "t6"),
     ("tau_from_pk1", "t", "sTA", "p", "s", "convertFirstPiolaKirchoffStressDerivativeToKirchhoffStressDerivative(dP, F0, s0) is the Jacobian at F0 of F |-> det(F) convertFirstPiolaKirchhoffStressToCauchyStress(P(F), F), P(F) = P(s0, F0) + X.(F - F0) (det F0 <> 0)", "j", "t7"),
 ]
 GROUPS = ["", "b", "c", "d", "e", "f", "g", "h", "i", "j", "t1", "t2", "t3", "t4", "t5", "t6", "t7"]
